@@ -89,6 +89,17 @@ theorem intro_st {m : M α} (h : ∀ st1, Tr (fun st => st = st1 ∧ P st) m Q E
 theorem exists_pre {ι : Type} {m : M α} {P : ι → St → Prop} (h : ∀ x, Tr (P x) m Q E) : Tr (fun st => ∃ x, P x st) m Q E :=
   fun st ⟨x, hp⟩ => h x st hp
 
+/-- `try … finally` -/
+theorem finally_ {m : M α} {f : St → St} {Q0 : α → St → Prop} {E0 : St → Prop} (h : Tr P m Q0 E0)
+    (hQ : ∀ a st, Q0 a st → Q a (f st)) (hE : ∀ st, E0 st → E (f st)) : Tr P (finallyM m f) Q E := by
+  intro st hp
+  have := h st hp
+  unfold finallyM
+  cases hm : m st with
+  | mk r st' =>
+    rw [hm] at this
+    exact ⟨fun a ha => hQ a st' (this.1 a ha), fun x hx hne => hE st' (this.2 x hx hne)⟩
+
 /-- a precondition that cannot hold -/
 theorem false_pre {m : M α} (h : ∀ st, P st → False) : Tr P m Q E := fun st hp => (h st hp).elim
 
